@@ -297,6 +297,9 @@ class IndexBackend(ArraySchemaBackend):
                 reason_code=SchemaErrorReason.MISMATCH_INDEX,
             )
 
+        if not inplace:
+            check_obj = check_obj.copy()
+
         error_handler = ErrorHandler(lazy)
 
         if schema.coerce:
@@ -456,6 +459,9 @@ class MultiIndexBackend(DataFrameSchemaBackend):
             otherwise creates a copy of the data.
         :returns: validated DataFrame or Series.
         """
+        if not inplace:
+            check_obj = check_obj.copy()
+
         if schema.coerce:
             check_obj.index = self.__coerce_index(check_obj, schema, lazy)
 
